@@ -66,7 +66,7 @@ LargeProbeValues ==
 ThePool   == CASE Pool = "std" -> StdPool [] Pool = "ext" -> ExtPool [] Pool = "large" -> LargePool
 TheValues == CASE Pool = "std" -> StdProbeValues [] Pool = "ext" -> ExtProbeValues
                [] Pool = "large" -> LargeProbeValues
-Probes    == {c \in SUBSET TheValues : Cardinality(c) <= 2}
+Probes    == {{}} \cup {{a, b} : a \in TheValues, b \in TheValues}      \* all sets of <= 2 values
 
 ArgSeqs == {<<p>> : p \in ThePool} \cup {<<p, q>> : p \in ThePool, q \in ThePool}
 
